@@ -385,7 +385,7 @@ fn pair_sweep(args: &Args, rt: &Arc<tokio::runtime::Runtime>, out: &mut Out) {
 }
 
 fn soak(args: &Args, rt: &Arc<tokio::runtime::Runtime>, out: &mut Out) {
-    let rounds = args.n(12, 200);
+    let rounds = args.n(96, 800);
     for round in 0..rounds {
         if !args.mine(round) {
             continue;
